@@ -71,6 +71,14 @@ Theorem C05_slots_inv_guarded : forall evs n,
   NoDup (map tuser (filter processing (mts s'))).
 Proof. intros evs n A. exact (slots_inv_guarded evs (init n) eq_refl (init_inv n) A). Qed.
 
+(* The event-loop half of A1, over the asyncio facts it needs (FIFO ready queue; call_soon / task creation
+   append; the handle of a due timer is appended behind what is already queued; the management job is a
+   single task that sleeps after each cycle): for EVERY order of scheduling events, no cycle of the
+   management job ever runs while the first segment of a task created by an earlier cycle is still queued.
+   Together with C05_first_segment_initializes this is the premise of C05_slots_inv. *)
+Theorem C05_A1_event_loop : forall evs, lbad (lrun linit evs) = false.
+Proof. exact loop_a1. Qed.
+
 (* Without A1 the invariant is false of the model (two cycles before the first task ran). *)
 Theorem C05_slots_inv_without_A1_refuted : exists evs,
   let s' := run (init 1) evs in
@@ -108,6 +116,12 @@ Example C05_guarded_nonvacuous :
   let evs := [Queue 0; Queue 1; Queue 2; Cycle; Cycle; Status 0 Offline false; Cycle; FirstAll; Cycle] in
   a1g (init 2) evs = true /\ a1 (init 2) evs = false /\
   map st_code (mts (run (init 2) evs)) = [0; 2; 2].
+Proof. vm_compute. auto. Qed.
+
+Example C05_A1_event_loop_nonvacuous :
+  lq (lrun linit [LEnqJob; LExec [3; 4]; LEnqOther; LEnqJob; LEnqJob; LExec []]) = [HFirst 4; HOther; HJob] /\
+  (* the ghost flag does detect a queue in which a first segment sits behind a job step *)
+  lbad (lstep (mkL [HJob; HFirst 1] true false) (LExec [])) = true.
 Proof. vm_compute. auto. Qed.
 
 Example C05_progress_nonvacuous :
